@@ -64,6 +64,8 @@ def configs(tier):
             # simulators without delay support: both parts at the firing time
             out.append(dict(spec=sp, grid='u5', safe=False, route='ssa', bound=2))
             out.append(dict(spec=sp, grid='u5', safe=False, route='volume', bound=2))
+            # delay together with a volume (entry point -> DelayVolumeSSASimulator)
+            out.append(dict(spec=sp, grid='u5', safe=False, route='delayvol', bound=2))
     out.append(dict(route='samplers', spec=dict(name='samplers'), grid='-', safe=False, bound=0))
     return out
 
@@ -92,7 +94,7 @@ def run_config(c, cfg):
     ncols = len(times)
     impl = e1.Impl(sp, cfg['safe'])
     route = cfg['route']
-    mode = 'stochvol' if route == 'volume' else 'stoch'
+    mode = 'stochvol' if route in ('volume', 'delayvol') else 'stoch'
     net = RS.Net(sp, mode, cfg['safe'])
     x0v = [float(sp['x0'][s]) for s in sp['species']]
     states, outcomes = set(), set()
@@ -103,9 +105,20 @@ def run_config(c, cfg):
             return RS.ssa(net, times, dt=qdt)
         if route == 'volume':
             return RS.volume_ssa(net, times, qdt, dict(type='const', V=2.0))
+        if route == 'delayvol':
+            return RS.delay_volume_ssa(net, times, qdt, qdt, ncols, dict(type='const', V=2.0))
         return RS.delay_ssa(net, times, qdt, ncols, dt=qdt)
 
     def impl_run(us):
+        if route == 'delayvol':
+            from bioscrape.simulator import py_simulate_model
+            with Stream(us) as st:
+                res = py_simulate_model(np.array(times), Model=impl.model, stochastic=True, delay=True, volume=2.0, safe=cfg['safe'],
+                                        return_dataframe=False)
+            fq = res.py_get_delay_queue()
+            nqt = fq.py_get_next_queue_time()
+            return dict(rows=impl.rows(res.py_get_result()), consumed=st.consumed, overrun=st.overrun,
+                        queue=e1._drain(fq, len(sp['reactions']), ncols), queue_next_time=nqt)
         if route == 'ssa':
             return impl.run_ssa(us, times, dt=qdt)
         if route == 'volume':
@@ -134,7 +147,7 @@ def run_config(c, cfg):
         bad = e1.compare(ref, got)
         if bad:
             c.violation(pre + bad[0], bad[1], case)
-        if route in ('delay', 'entry'):
+        if route in ('delay', 'entry', 'delayvol'):
             if not bad and (got['queue'] != ref['queue'] or got['queue_next_time'] != ref['queue_next_time']):
                 c.violation(pre + 'final-queue', 'pending deliveries differ: reference %s (next %s) implementation %s (next %s)' % (
                     ref['queue'], ref['queue_next_time'], got['queue'], got['queue_next_time']), case)
@@ -234,7 +247,7 @@ def run(ctx):
                 'the reference delay simulator\'s choice tree (waiting time vs next grid time vs next queue slot, reaction bucket, '
                 'Box-Muller / Marsaglia-Tsang variates realising negative, sub-step, lower/upper part of a slot, on-slot and '
                 'beyond-horizon delays) is explored to the cost bound and every trace replayed on DelaySSASimulator (directly and '
-                'through py_simulate_model(delay=True)), comparing rows, draws and the drained final queue; SSASimulator and '
+                'through py_simulate_model(delay=True)), comparing rows, draws and the drained final queue; the same through py_simulate_model(delay=True, volume=2.0) on DelayVolumeSSASimulator; SSASimulator and '
                 'VolumeSSASimulator are replayed against references that apply both parts at the firing time; plus the delay '
                 'samplers on a full lattice of uniforms. states = distinct (state, grid index, queue content) of the reference; '
                 'non-trivial = configuration with more than one distinct outcome.')
